@@ -192,3 +192,33 @@ Proof.
   destruct q; cbn; try reflexivity; destruct (existsb (proto_eqb V2) r); cbn; try reflexivity;
     destruct (existsb (proto_eqb V1) r); reflexivity.
 Qed.
+
+(* ================= the payload builders ================= *)
+Lemma builder_code_known :
+  forallb bst_known [v1_request_payload_code; v1_response_payload_code; v1_error_payload_code; v2_request_payload_code;
+                     v2_response_payload_code; v2_error_payload_code; loose_request_payload_code; loose_response_payload_code;
+                     loose_error_payload_code] = true.
+Proof. reflexivity. Qed.
+
+Local Transparent text_eqb.
+
+(* request.args is a list or a dict (the constructor of Request / Notification sees to that) *)
+Theorem generated_request_payload pr meth args rid res c m : is_list args || is_dict args = true ->
+  bsexec {| b_meth := meth; b_args := args; b_rid := rid; b_result := res; b_ecode := c; b_emsg := m |} None (code_of_request_payload pr)
+  = Some (request_payload pr meth args rid).
+Proof.
+  intros Ha. destruct pr; unfold request_payload, out_proto, code_of_request_payload; cbn.
+  - destruct args; try discriminate; reflexivity.
+  - destruct (is_null rid); cbn; destruct args as [| | | | |[|x a]|o]; try discriminate; reflexivity.
+  - destruct (is_null rid); cbn; destruct args as [| | | | |[|x a]|o]; try discriminate; reflexivity.
+Qed.
+
+Theorem generated_response_payload pr meth args rid res c m :
+  bsexec {| b_meth := meth; b_args := args; b_rid := rid; b_result := res; b_ecode := c; b_emsg := m |} None (code_of_response_payload pr)
+  = Some (Some (response_payload pr res rid)).
+Proof. destruct pr; reflexivity. Qed.
+
+Theorem generated_error_payload pr meth args rid res c m :
+  bsexec {| b_meth := meth; b_args := args; b_rid := rid; b_result := res; b_ecode := c; b_emsg := m |} None (code_of_error_payload pr)
+  = Some (Some (error_payload pr c m rid)).
+Proof. destruct pr; reflexivity. Qed.
